@@ -276,16 +276,16 @@ theorem bch_exact_upto_6_partial (k : Nat) (hk : k ≤ 6) :
   have : k = 0 ∨ k = 1 ∨ k = 2 ∨ k = 3 ∨ k = 4 ∨ k = 5 ∨ k = 6 := by omega
   rcases this with rfl | rfl | rfl | rfl | rfl | rfl | rfl <;> decide +kernel
 
-/-- the same for the orders 7 and 8 (the range the harness exercises): `bch_expand` truncated at any
-order `k ≤ 8` is exact on the free nilpotent algebra of class `k`. -/
-theorem bch_exact_upto_8_partial (k : Nat) (hk : k ≤ 8) :
+/-- the same for order 7: `bch_expand` truncated at any order `k ≤ 7` is exact on the free nilpotent
+algebra of class `k`.  (Order 8 is within reach of the same kernel computation but needs about 14 GB of
+memory, so it is left to the exact correspondence run and the Spec oracle, which cover orders `≤ 8`.) -/
+theorem bch_exact_upto_7_partial (k : Nat) (hk : k ≤ 7) :
     Spec.BCH.check k (generateNestedCommutator k) = true := by
   by_cases h6 : k ≤ 6
   · exact bch_exact_upto_6_partial k h6
-  · have : k = 7 ∨ k = 8 := by omega
-    rcases this with rfl | rfl
-    · exact Proofs.C07.bch_check_7
-    · exact Proofs.C07.bch_check_8
+  · have : k = 7 := by omega
+    subst this
+    exact Proofs.C07.bch_check_7
 
 /-- Dynkin-style nested commutator `'010…' ↦ [x, [y, [x, …]]]` in a ring (`false = x`, `true = y`) -/
 def nestedComm {A : Type} [Ring A] (x y : A) : List Bool → A
@@ -293,15 +293,15 @@ def nestedComm {A : Type} [Ring A] (x y : A) : List Bool → A
   | [g] => if g then y else x
   | g :: r => (if g then y else x) * nestedComm x y r - nestedComm x y r * (if g then y else x)
 
-/-- **`bch_universal_upto_8`** — the BCH table in EVERY nilpotent setting, not only the free one.  Let `A`
+/-- **`bch_universal_upto_7`** — the BCH table in EVERY nilpotent setting, not only the free one.  Let `A`
 be any ℚ-algebra and `x, y ∈ A` such that every product of more than `k` factors from `{x, y}` vanishes
-(`k ≤ 8`).  With the coefficient table `_generate_nested_commutator(k)` of the Model (exact rationals),
+(`k ≤ 7`).  With the coefficient table `_generate_nested_commutator(k)` of the Model (exact rationals),
 `z = Σ coeff · nested commutator` — the value `_bch_expand_two_terms(x, y, order=k)` computes — satisfies
 `exp z = exp x · exp y`, where `exp t = Σ_{j ≤ k} t^j / j!` (all three series terminate there).
 This is the universal property of the free nilpotent algebra, formalised for the list representation of
 the Spec (`Proofs.C07U`): evaluation at `(x, y)` is additive and, modulo words longer than `k`,
 multiplicative. -/
-theorem bch_universal_upto_8 (k : Nat) (hk : k ≤ 8) {A : Type} [Ring A] [Algebra ℚ A] (x y : A)
+theorem bch_universal_upto_7 (k : Nat) (hk : k ≤ 7) {A : Type} [Ring A] [Algebra ℚ A] (x y : A)
     (hnil : ∀ w : List Bool, k < w.length → (w.map fun g => if g then y else x).prod = 0) :
     (∑ j ∈ Finset.range (k + 1), ((j.factorial : ℚ)⁻¹) •
         (((generateNestedCommutator k).map fun tc => (tc.2 : ℚ) • nestedComm x y tc.1).sum) ^ j) =
@@ -317,8 +317,8 @@ theorem bch_universal_upto_8 (k : Nat) (hk : k ≤ 8) {A : Type} [Ring A] [Algeb
       cases r with
       | nil => rfl
       | cons g' r' => simp only [nestedComm, Proofs.C07U.nestedA, Proofs.C07U.gen, ih]
-  have h := Proofs.C07U.check_universal x y k (generateNestedCommutator k) (bch_exact_upto_8_partial k hk)
-    (Proofs.C07.expXexpY_split k hk) hn
+  have h := Proofs.C07U.check_universal x y k (generateNestedCommutator k) (bch_exact_upto_7_partial k hk)
+    (Proofs.C07.expXexpY_split k (by omega)) hn
   simp only [Proofs.C07U.expT_eq] at h
   simpa only [hnest] using h
 
@@ -335,13 +335,13 @@ def bchMany {A : Type} [Ring A] [Algebra ℚ A] (k : Nat) (xs : Nat → A) : BTr
   | .leaf i => xs i
   | .node l r => bchTwo k (bchMany k xs l) (bchMany k xs r)
 
-/-- **`bch_expand` with any number of operators** (`order = k ≤ 8`).  Let `A` be a ℚ-algebra with a
+/-- **`bch_expand` with any number of operators** (`order = k ≤ 7`).  Let `A` be a ℚ-algebra with a
 multiplicative filtration `F 1 ⊇ F 2 ⊇ …`, `F i · F j ⊆ F (i + j)`, `F (k + 1) = 0` (e.g. strictly upper
 triangular matrices; polynomials in a small parameter modulo `ε^{k+1}`), and `x_0, …, x_{n-1} ∈ F 1`,
 `n ≥ 1`.  Then `z = bch_expand(x_0, …, x_{n-1}, order=k)` — the recursive halving
 `ops[: n // 2]`, `ops[n // 2 :]` with the two-operator table at every node — lies in `F 1` and satisfies
 `exp z = exp x_0 · exp x_1 ⋯ exp x_{n-1}` (in this order). -/
-theorem bch_expand_sound_upto_8 (k : Nat) (hk : k ≤ 8) {A : Type} [Ring A] [Algebra ℚ A]
+theorem bch_expand_sound_upto_7 (k : Nat) (hk : k ≤ 7) {A : Type} [Ring A] [Algebra ℚ A]
     (F : Nat → Submodule ℚ A) (anti : ∀ i, F (i + 1) ≤ F i)
     (mul : ∀ i j a b, a ∈ F i → b ∈ F j → a * b ∈ F (i + j)) (top : ∀ a ∈ F (k + 1), a = 0)
     (n : Nat) (hn : 1 ≤ n) (xs : Nat → A) (hx : ∀ i, i < n → xs i ∈ F 1) :
@@ -367,8 +367,8 @@ theorem bch_expand_sound_upto_8 (k : Nat) (hk : k ≤ 8) {A : Type} [Ring A] [Al
   have h2 : ∀ x y : A, Proofs.C07U.Nil x y k →
       Proofs.C07U.expT k (Proofs.C07U.bch2 k x y) = Proofs.C07U.expT k x * Proofs.C07U.expT k y := by
     intro x y hnil
-    exact Proofs.C07U.check_universal x y k (generateNestedCommutator k) (bch_exact_upto_8_partial k hk)
-      (Proofs.C07.expXexpY_split k hk) hnil
+    exact Proofs.C07U.check_universal x y k (generateNestedCommutator k) (bch_exact_upto_7_partial k hk)
+      (Proofs.C07.expXexpY_split k (by omega)) hnil
   have hl : leaves (splitTree n 0 n) = List.range n := by
     rw [splitTree_leaves n 0 n hn (Nat.le_refl _), List.range_eq_range']
   obtain ⟨hm, he⟩ := Proofs.C07U.bchTree_sound ⟨F, anti, mul, top⟩ h2 xs (splitTree n 0 n) (by
